@@ -26,16 +26,18 @@ LEVEL_TEXT = ("Bounded symbolic execution of the three fit() drivers with the RN
 
 def configs(tier):
     out = []
-    for n_reads in (0, 2):
+    for seed in (0, 1234):  # 0 is a legal --mcmc-seed: it must seed like any other value
+        for n_reads in (0, 2):
+            for initial in (False, True):
+                for chains in (1, 2):
+                    out.append(dict(group="assemble", n_reads=n_reads, initial=initial, chains=chains, seed=seed))
+        for variants in (True, False):
+            for initial in (False, True):
+                out.append(dict(group="call", variants=variants, initial=initial, seed=seed))
         for initial in (False, True):
-            for chains in (1, 2):
-                out.append(dict(group="assemble", n_reads=n_reads, initial=initial, chains=chains))
-    for variants in (True, False):
-        for initial in (False, True):
-            out.append(dict(group="call", variants=variants, initial=initial))
-    for initial in (False, True):
-        out.append(dict(group="pedigree", initial=initial))
+            out.append(dict(group="pedigree", initial=initial, seed=seed))
     out.append(dict(group="app-call"))
+    out.append(dict(group="rng-sources"))
     return out
 
 
@@ -142,7 +144,7 @@ def _run_assemble(c, col):
 
         mc.sample_snv_alleles = sample
         mc._denovo_assembler = assembler
-        seed = 1234
+        seed = c.get("seed", 1234)
         obj = mc.DenovoMCMC(ploidy=P, n_alleles=[A] * n_pos, steps=2, chains=c["chains"], fix_homozygous=E.SymReal(thr), n_intervals=1, random_seed=seed,
                             temperatures=(1.0,) if c["chains"] == 1 else (0.5, 1.0))
         reads = rnp.full((c["n_reads"], n_pos, A), 0.5)
@@ -183,7 +185,7 @@ def _run_call(c, col):
 
         cc.mcmc_sampler = sampler
         cc.greedy_caller = lambda **k: rnp.zeros(2, dtype=rnp.int8)  # deterministic (no RNG) -- checked: contains no random call
-        seed = 77
+        seed = c.get("seed", 77)
         haps = rnp.array([[0], [1]], dtype=rnp.int8) if c["variants"] else rnp.zeros((1, 0), dtype=rnp.int8)
         obj = cc.CallingMCMC(ploidy=2, haplotypes=haps, steps=2, chains=2, random_seed=seed)
         reads = rnp.full((2, 1 if c["variants"] else 0, 2), 0.5)
@@ -228,7 +230,7 @@ def _run_pedigree(c, col):
 
         pc.mcmc_sampler = sampler
         pc.greedy_caller = lambda **k: rnp.zeros(2, dtype=rnp.int8)
-        seed = 5
+        seed = c.get("seed", 5)
         obj = pc.PedigreeCallingMCMC(sample_ploidy=rnp.array([2, 2]), sample_inbreeding=rnp.zeros(2), sample_parents=rnp.full((2, 2), -1), gamete_tau=rnp.ones((2, 2), dtype=int),
                                      gamete_lambda=rnp.zeros((2, 2)), gamete_error=rnp.zeros((2, 2)), haplotypes=rnp.array([[0], [1]], dtype=rnp.int8), steps=2, annealing=1, chains=2, random_seed=seed)
         try:
@@ -303,6 +305,58 @@ def _run_app_call(c, col):
             col.ok("every sample's sampler is constructed with the program's --mcmc-seed")
 
 
+SAMPLER_MODULES = ["mchap.jitutils", "mchap.assemble.mcmc", "mchap.assemble.mutation", "mchap.assemble.structural", "mchap.assemble.tempering", "mchap.assemble.likelihood",
+                   "mchap.assemble.prior", "mchap.assemble.snpcalling", "mchap.calling.mcmc", "mchap.calling.classes", "mchap.calling.prior", "mchap.calling.likelihood",
+                   "mchap.pedigree.mcmc", "mchap.pedigree.prior", "mchap.pedigree.likelihood", "mchap.pedigree.classes"]
+
+
+def _run_rng_sources(c, col):
+    """guard of the model's assumption: the samplers draw only from numpy's namespace (the two generators fit() seeds).
+    The sampler modules are shadow-loaded with the stdlib generators replaced by tripwires and their source is scanned for
+    other entropy sources."""
+    import ast
+    import os
+    import types
+
+    site = "mchap (sampler modules)"
+    trip = types.ModuleType("random")
+
+    def _tripped(name):
+        def f(*a, **k):
+            raise RuntimeError("stdlib random.%s used" % name)
+        return f
+
+    for name in ("random", "randint", "choice", "shuffle", "uniform", "seed", "sample", "randrange", "gauss"):
+        setattr(trip, name, _tripped(name))
+    E.set_extern("random", trip)
+    try:
+        for modname in SAMPLER_MODULES:
+            E.load(modname)
+    finally:
+        E._extern.pop("random", None)
+    col.path()
+    for pr in E.explore(lambda ctx: ctx.assume(z3.Real("one") == 1), stats=col.stats):
+        col.reachable(pr.ctx)
+    bad = []
+    for modname in SAMPLER_MODULES:
+        path = os.path.join(E.repo_root(), *modname.split(".")) + ".py"
+        tree = ast.parse(open(path).read())
+        for node in ast.walk(tree):
+            if isinstance(node, (ast.Import, ast.ImportFrom)):
+                names = [a.name for a in node.names] if isinstance(node, ast.Import) else [node.module or ""]
+                for n in names:
+                    if n.split(".")[0] in ("random", "secrets", "time", "uuid", "os") and not (n == "os"):
+                        bad.append("%s imports %s (line %d)" % (modname, n, node.lineno))
+            if isinstance(node, ast.Attribute) and isinstance(node.value, ast.Name) and node.value.id == "random" and node.attr != "seed":
+                bad.append("%s uses random.%s (line %d): not one of the generators that fit() seeds" % (modname, node.attr, node.lineno))
+            if isinstance(node, ast.Call) and isinstance(node.func, ast.Attribute) and node.func.attr in ("default_rng", "RandomState", "urandom", "time", "time_ns"):
+                bad.append("%s calls %s (line %d)" % (modname, node.func.attr, node.lineno))
+    if bad:
+        col.fail(site, "unseeded-rng-source", witness=dict(sources=bad), desc="; ".join(bad[:3]))
+    else:
+        col.ok("the sampler modules draw randomness only through numpy's namespace (np.random.*), i.e. the generators fit() seeds")
+
+
 # ------------------------------------------------------------------ replay: real classes, real generators
 
 
@@ -312,6 +366,9 @@ def replay(v):
     from mchap.jitutils import seed_numba
 
     g = v["config"]["group"]
+    if g == "rng-sources":
+        g = "assemble"
+    rs = v["config"].get("seed", 11)
     reads = _np.array([[[0.9, 0.1], [0.2, 0.8]], [[0.1, 0.9], [0.7, 0.3]], [[0.6, 0.4], [0.5, 0.5]]])
     outs = []
     for hist in (1, 2):
@@ -321,31 +378,31 @@ def replay(v):
         if g in ("assemble",):
             from mchap.assemble.mcmc import DenovoMCMC
 
-            t = DenovoMCMC(ploidy=2, n_alleles=[2, 2], steps=30, chains=2, random_seed=11, fix_homozygous=2.0).fit(reads)
+            t = DenovoMCMC(ploidy=2, n_alleles=[2, 2], steps=60, chains=2, random_seed=rs, fix_homozygous=2.0, temperatures=(0.2, 0.6, 1.0)).fit(reads)
             outs.append(t.genotypes.copy())
         elif g in ("call", "app-call"):
             from mchap.calling.classes import CallingMCMC
 
             haps = _np.array([[0, 0], [0, 1], [1, 0], [1, 1]], dtype=_np.int8)
-            t = CallingMCMC(ploidy=2, haplotypes=haps, steps=30, chains=2, random_seed=11).fit(reads, read_counts=_np.ones(3, dtype=int))
+            t = CallingMCMC(ploidy=2, haplotypes=haps, steps=30, chains=2, random_seed=rs).fit(reads, read_counts=_np.ones(3, dtype=int))
             outs.append(t.genotypes.copy())
         else:
             from mchap.pedigree.classes import PedigreeCallingMCMC
 
             haps = _np.array([[0, 0], [0, 1], [1, 0], [1, 1]], dtype=_np.int8)
             obj = PedigreeCallingMCMC(sample_ploidy=_np.array([2, 2]), sample_inbreeding=_np.zeros(2), sample_parents=_np.full((2, 2), -1), gamete_tau=_np.ones((2, 2), dtype=int),
-                                      gamete_lambda=_np.zeros((2, 2)), gamete_error=_np.full((2, 2), 0.01), haplotypes=haps, steps=30, annealing=5, chains=2, random_seed=11)
+                                      gamete_lambda=_np.zeros((2, 2)), gamete_error=_np.full((2, 2), 0.01), haplotypes=haps, steps=30, annealing=5, chains=2, random_seed=rs)
             t = obj.fit(_np.stack([reads, reads]), _np.ones((2, 3), dtype=int))
             outs.append(t.genotypes.copy())
     same = bool((outs[0] == outs[1]).all())
-    return not same, "two real fits with seed 11 after different RNG histories %s" % ("agree" if same else "DIFFER")
+    return not same, "two real fits with seed %r after different RNG histories %s" % (rs, "agree" if same else "DIFFER")
 
 
 def validate(seed):
     """the real fit() entry points are deterministic for a fixed seed regardless of RNG history (3 entry points)"""
     n = 0
     for g in ("assemble", "call", "pedigree"):
-        bad, info = replay(dict(config=dict(group=g)))
+        bad, info = replay(dict(config=dict(group=g, seed=11)))
         assert not bad, info
         n += 1
     return n
